@@ -37,6 +37,12 @@ func runC01(c *fw.Ctx) {
 	if ioFaultHook != nil {
 		ioFaultHook(c, "C01")
 	}
+	// single faults found after scanning (schema faults, dangling references), in every pool
+	// document in both declaration orders, written in one file, with the faulty directive in an
+	// included file, and with each top-level declaration alone in a small file of its own
+	runFaultsMode(c, "C01:faults:", func(kind string) bool {
+		return strings.HasPrefix(kind, "schema-error-") || strings.HasPrefix(kind, "undefined-")
+	}, true)
 	dir := drv.NewDir(fw.Scratch("c01"))
 	defer os.RemoveAll(filepath.Dir(dir.Path))
 	defer dir.Close()
